@@ -97,8 +97,9 @@ def pre_heavy_graphs(n, sd):
         for i in ks:
             g[i] = {"cls": "K2", "vals": {"a": ["int", int(i)], "c": ["cfg", rng.choice(ks)] if rng.random() < 0.6 else ["none"], "v": ["int", 4]},
                     "meta": "none", "pre": [], "init": [], "task": "0"}
+        same = rng.random() < 0.4      # distinct lightweight tasks with equal parameters are still distinct tasks
         for i in lws:
-            g[i] = {"cls": "LW", "vals": {"k": ["int", int(i)], "c": ["none"]}, "meta": "none", "pre": [], "init": [], "task": "0"}
+            g[i] = {"cls": "LW", "vals": {"k": ["int", 7 if same else int(i)], "c": ["none"]}, "meta": "none", "pre": [], "init": [], "task": "0"}
         g[ks[0]]["vals"]["c"] = ["cfg", ks[-1]] if nk > 1 else ["none"]
         for i in ks:
             k = rng.choice([1, 2, 3])
@@ -286,7 +287,7 @@ IO_PREFIX = {"C12": ("params.json:", "params.json (written", "state_dict:", "sta
 def io_conformance(rep, prop, n, sd):
     """C12 / C13: write + load every way, instantiate both ways; TLC validates the definition order and the
     instantiated sets, the isomorphism / call counts are compared with the abstract graph"""
-    gs = graphs(n - n // 3, sd + 21) + pre_heavy_graphs(n // 3, sd + 22)
+    gs = graphs(n - n // 3, sd + 21) + pre_heavy_graphs(n // 3, sd + 22) + producer_graphs(n // 8, sd + 23)
     with pool() as ex:
         obs = list(ex.map(_w_io, [(g, sd * 13 + i) for i, g in enumerate(gs)], chunksize=10))
     cases, index = [], []
@@ -687,7 +688,8 @@ def _w_frozen(sd):
     rng = random.Random(sd)
     problems = []
     inner = S.K(a=rng.choice([1, 2, 3]))
-    holder = S.K(a=7, c=inner, l=[inner], d={"k": S.K2(a=1)})
+    thelist, thedict = [inner, S.K(a=4)], {"k": S.K2(a=1)}       # the caller keeps these containers
+    holder = S.K(a=7, c=inner, l=thelist, d=thedict)
     kind = rng.choice(["T", "T1", "T0"])
     pre = S.LW(k=rng.choice([1, 2]), c=S.K(a=9))
     if kind == "T":
@@ -701,24 +703,47 @@ def _w_frozen(sd):
     out = prod.submit()
     cons = S.T0(x=S.G(z=out), n=5)
     before_ids = None
-    consout = cons.submit(init_tasks=[S.LW(k=3)] if rng.random() < 0.5 else [])
+    both = rng.random() < 0.5
+    cpre, cinit = S.LW(k=21, c=S.K(a=21)), S.LW(k=22, c=S.K2(a=22))
+    if both or rng.random() < 0.3:
+        cons.add_pretasks(cpre)
+    inits = [cinit] if both or rng.random() < 0.5 else []
+    consout = cons.submit(init_tasks=inits)
     everything = {"prod": prod, "holder": holder, "inner": inner, "out": out, "cons": cons, "wrap": cons.x}
+    for i, t in enumerate(cons.__xpm__.pre_tasks):
+        everything[f"cons.pre{i}"] = t
+        everything[f"cons.pre{i}.c"] = t.c
+    for i, t in enumerate(inits):
+        everything[f"cons.init{i}"] = t
+        everything[f"cons.init{i}.c"] = t.c
+    for i, t in enumerate(prod.__xpm__.pre_tasks):
+        everything[f"prod.pre{i}"] = t
     ids = {k: v.__xpm__.full_identifier.all for k, v in everything.items()}
     paths = (str(prod.__xpm__.job.relpath), str(cons.__xpm__.job.relpath))
     for name, o in everything.items():
         if not o.__xpm__._sealed:
             problems.append(f"{name} ({kind}) is reachable from a submitted task but not sealed")
         for what, fn in (
-            ("assign a parameter", lambda o=o: setattr(o, "a" if "a" in o.__xpmtype__.arguments else ("n" if "n" in o.__xpmtype__.arguments else "z"), 1 if "z" not in o.__xpmtype__.arguments or "a" in o.__xpmtype__.arguments else None)),
+            ("assign a parameter", lambda o=o: setattr(o, *next((a, (None if a == "z" else 1)) for a in ("a", "n", "k", "z") if a in o.__xpmtype__.arguments))),
             ("change the meta flag", lambda o=o: setmeta(o, True)),
             ("add a pre-task", lambda o=o: o.add_pretasks(S.LW(k=99))),
+            ("copy the pre-tasks of another configuration", lambda o=o: o.add_pretasks_from(S.K(a=1).add_pretasks(S.LW(k=98)))),
         ):
             try:
                 fn()
                 problems.append(f"{what} on {name} ({kind}) after submission was accepted")
             except (AttributeError, AssertionError, SealedError):
                 pass
+    # the containers handed to the constructor still belong to the caller: changing them afterwards changes nothing
+    npre = {k: len(v.__xpm__.pre_tasks) for k, v in everything.items()}
+    thelist.append(S.K(a=99))
+    thelist[0] = S.K(a=98)
+    thedict["z"] = S.K2(a=97)
+    if len(holder.l) != 2 or holder.l[0] is not inner or sorted(holder.d) != ["k"]:
+        problems.append("a list / dict given to a parameter is shared with the caller: changing it after submission changes the submitted task")
     for k, v in everything.items():
+        if len(v.__xpm__.pre_tasks) != npre[k]:
+            problems.append(f"{k} gained a pre-task after submission")
         if v.__xpm__.full_identifier.all != ids[k]:
             problems.append(f"identifier of {k} changed after the rejected attempts")
     if (str(prod.__xpm__.job.relpath), str(cons.__xpm__.job.relpath)) != paths:
